@@ -39,10 +39,16 @@ def addToDistrict {β : Type} [DecidableEq β] (m : List (List Name × List β))
     m.map (fun p => if p.1 == d then (p.1, if mem' x p.2 then p.2 else p.2 ++ [x]) else p)
   else m ++ [(d, [x])]
 
-/-- the grouping loop shared by the two `get_counterfactual_factors*` functions; `get_district` raises `KeyError` -/
+/-- one iteration of the grouping loop; `get_district` raises `KeyError` -/
+def groupStep {β : Type} [DecidableEq β] (g : MG Name) (name : β → Name) (m : List (List Name × List β)) (x : β) :
+    Except Err (List (List Name × List β)) := do
+  let d ← g.getDistrict (name x)
+  pure (addToDistrict m d x)
+
+/-- the grouping loop shared by the two `get_counterfactual_factors*` functions -/
 def groupByDistrict {β : Type} [DecidableEq β] (g : MG Name) (name : β → Name) (xs : List β) :
     Except Err (List (List β)) := do
-  let m ← xs.foldlM (fun m x => do pure (addToDistrict m (← g.getDistrict (name x)) x)) []
+  let m ← xs.foldlM (groupStep g name) []
   pure (m.map (·.2))
 
 /-- `get_counterfactual_factors(event, graph)`; `ValueError` when not in ctf-factor form -/
@@ -93,12 +99,17 @@ def probOf (factor : List Var) : Expr := .prob none (sortBy Var.keyLt factor) []
 /-- union of two Python sets -/
 def unionVars (a b : List Var) : List Var := a ++ b.filter (fun x => !mem' x a)
 
+/-- `ancestral_set.update(get_ancestors_of_counterfactual(variable, graph))` -/
+def ancStep (g : MG Name) (acc : List Var) (p : Var × Val) : Except Err (List Var) := do
+  let a ← ctfAncestors g p.1
+  pure (unionVars acc a)
+
 /-- `do_counterfactual_factor_factorization(variables, graph)`: returns the expression
 `Σ_{d_* ∖ y_*} Π_j P(c_j*)` and the query in ctf-factor form with its values -/
 def factorize (g : MG Name) (q : Event) : Except Err (Expr × Event) := do
   if q.isEmpty then throw (.invalidInput "TypeError")
   let resultEvent ← convertEvent g q
-  let anc ← q.foldlM (fun acc p => do pure (unionVars acc (← ctfAncestors g p.1))) []
+  let anc ← q.foldlM (ancStep g) []
   let ancCtf := dedup' (← anc.mapM (convertOne g))
   let names := dedup' (ancCtf.map (·.name))
   let outcome := dedup' (q.map (·.1.name))
